@@ -83,6 +83,10 @@ pub trait Prop: Sync {
     fn selftest(&self) -> Result<u64, String> {
         Ok(0)
     }
+    /// properties about determinism: a discrepancy that does not reproduce is itself a violation
+    fn nondeterminism_is_violation(&self) -> bool {
+        false
+    }
 }
 
 #[derive(Clone, Debug)]
@@ -243,8 +247,12 @@ pub fn run<P: Prop>(p: &P, opts: &Opts) -> i32 {
         })
         .collect();
     if let Some(b) = bad.first() {
-        eprintln!("MACHINERY: {b}");
-        return 2;
+        if p.nondeterminism_is_violation() {
+            eprintln!("[{id}] note: {} discrepancies did not reproduce identically on re-execution — for this property that instability is itself the violation", bad.len());
+        } else {
+            eprintln!("MACHINERY: {b}");
+            return 2;
+        }
     }
     let known = load_known(&opts.verif_dir);
     let mut violations = vec![];
